@@ -20,6 +20,7 @@ STEPPING = 'self._stepping'
 
 def run(chk: Check) -> None:
     withdrawn_pause_stays_withdrawn(chk)
+    action_run_survives_external_cancel(chk)
     pause_gate(chk)
     pause_ladder(chk)
     no_step_lost(chk)
@@ -179,6 +180,23 @@ def no_step_lost(chk: Check) -> None:
     rearm_after_interruption(chk, 'DOM-no-step-lost')
     fin = [t for t in ast.walk(dp.node) if isinstance(t, ast.Try) and any(isinstance(s, ast.Assign) and norm(s.targets[0]) == PAUSING and norm(s.value) == 'None' for s in t.finalbody)]
     chk.ob('PAIR-pausing-reset', dp, bool(fin), '_pausing is reset on every exit of _do_pause', kind='finally-reset')
+
+
+def action_run_survives_external_cancel(chk: Check, rule: str = 'FUT-external-canceller') -> None:
+    """pause() / kill() requested during a step RETURN the pending action (a future): the caller holds it and may cancel it (a timeout, a dropped RPC).
+    CancellableAction.run() refuses a done action by raising, so the site in step() that runs the pending action must know it is still pending --
+    otherwise the end of the step raises InvalidStateError, the step's result is lost and the process stays in a state whose step already ran."""
+    from ..rules import Contexts
+    prog = chk.prog
+    step = prog.func('processes.Process.step')
+    ff = chk.ctx.facts.analyse(step)
+    runs = [c for c in calls_in_func(step, 'run') if ff.canon.key(c.func.value) == 'self._interrupt_action']
+    for c in runs:
+        ok = all(('F', 'self._interrupt_action.done()') in fs or ('F', 'self._interrupt_action.cancelled()') in fs for _, fs in ff.site_facts(c))
+        chk.ob(rule, step, ok, 'the pending interrupt action is run at the end of the step ' + ('only while it is known to be pending' if ok else 'without knowing that it is still pending: '
+               'the caller of pause() / kill() holds that very future and may have cancelled it, run() then raises InvalidStateError out of step() after the step function has already run'),
+               node=c, kind='action-pending-when-run')
+    chk.ob(rule, step, bool(runs), 'step() runs the pending interrupt action at one or more sites', kind='action-run-sites')
 
 
 def withdrawn_pause_stays_withdrawn(chk: Check) -> None:
